@@ -46,6 +46,32 @@ def stream(rng, generator, keep=lambda scn: True, tweak=None):
                 yield scn
 
 
+def past_window_tweak(rng, scn):
+    """30%: give one cyclic job a start..stop window that lies entirely in the past (it still has due times to
+    work off before the stop retires it)"""
+    scn = dict(scn, _no_solo=True)
+    if rng.random() < 0.3:
+        cyc = [o for o in scn["ops"] if o["op"] == "sch" and o["call"] == 0]
+        if cyc:
+            o = rng.choice(cyc)
+            T = o["timings"][0][1]
+            off = scn.get("tz")
+            a = rng.randint(1, 4)
+            b = rng.randint(0, a - 1)
+            o["start"] = [scn["clock0"] - a * T + (off or 0), off]
+            o["stop"] = [scn["clock0"] - b * T - rng.choice([0, 0, S]) + (off or 0), off]
+            if o["stop"][0] <= o["start"][0]:
+                o["stop"][0] = o["start"][0] + S
+            o["delay"] = rng.random() < 0.7
+    return scn
+
+
+def alternate(*streams):
+    while True:
+        for st in streams:
+            yield next(st)
+
+
 def strip_acts(scn, kinds=("as",)):
     """drop the given kinds of coroutine actions (e.g. scheduling from inside a coroutine)"""
     for o in scn["ops"]:
@@ -69,9 +95,22 @@ def ref_of(o):
 
 
 # ------------------------------------------------------------------------------------------ C06
+def probe_specs(r):
+    """retired by the very step that performs the last invocation: right after the supervisor step
+    that booked a run (next loop iteration) an exhausted job is no longer registered"""
+    qs = []
+    for i, ob in enumerate(r["obs"]):
+        for (t, k, reg, has, att) in ob.get("probes", []):
+            if has == 0:
+                qs.append((f"spec eq {reg} 0", {"what": "aio retired by the step of its last invocation", "key": k, "op": i, "t": t, "attempts": att}))
+            elif has == -1:
+                qs.append(("spec eq 0 1", {"what": "aio probe failed", "key": k, "op": i, "error": att}))
+    return qs
+
+
 def c06_specs(r):
     """never more runs than the budget; retired when exhausted; gone for good"""
-    qs = []
+    qs = probe_specs(r)
     jobs = top_jobs(r)
     maxatt = {k: (1 if o["call"] == 5 else o.get("max_att", 0)) for k, o in jobs.items()}
     nstart, was_reg, gone = {}, set(), set()
@@ -225,7 +264,7 @@ def c19_tweak(rng, scn):
             nj += 1
             o["payload"] = nj
             o["argshape"] = rng.choice(["none", "empty", "one", "many", "nested"])
-            o["kwshape"] = rng.choice(["none", "empty", "one", "many"])
+            o["kwshape"] = rng.choice(["none", "empty", "one", "many", "reserved"])
             o["tags"] = sorted(rng.sample(range(1, 5), rng.randint(0, 3)))
     ops = []
     for o in scn["ops"]:
@@ -240,9 +279,14 @@ def c19_tweak(rng, scn):
 
 def c19_specs(r):
     qs = [q for q in c12_specs(r)]
-    nrun = 0
+    done = {}
     for i, ob in enumerate(r["obs"]):
-        nrun += sum(1 for e in ob.get("events", []) if e[2] == "S")
+        for e in ob.get("events", []):
+            if e[2] in ("E", "X"):
+                done[e[1]] = done.get(e[1], 0) + 1
+        # every execution the job counts did run the coroutine function (the arguments reached it)
+        for k, v in ob["jobs"].items():
+            qs.append((f"spec eq {v[2]} {done.get(k, 0)}", {"what": "aio every counted execution called the coroutine function", "key": k, "op": i}))
         af = ob.get("arg_failures") or []
         qs.append((f"spec eq {len(af)} 0", {"what": "aio exact_arguments: a coroutine received other arguments than given", "op": i, "seen": af[:2]}))
     return qs
